@@ -16,6 +16,7 @@ import (
 	"bytes"
 	"crypto/sha1"
 	"encoding/base64"
+	"encoding/binary"
 	"encoding/gob"
 	"fmt"
 	"hash"
@@ -148,50 +149,32 @@ func RuleHash(state *core.BuildState, target *core.BuildTarget, runtime, postBui
 }
 
 func ruleHash(state *core.BuildState, target *core.BuildTarget, runtime bool) []byte {
+	// Every variable-length item is written with its length, and every list with its number of
+	// entries, so that no two different definitions can produce the same stream of bytes.
 	h := sha1.New()
-	h.Write([]byte(target.Label.String()))
-	for _, dep := range target.DeclaredDependencies() {
-		h.Write([]byte(dep.String()))
-	}
-	for _, vis := range target.Visibility {
-		h.Write([]byte(vis.String())) // Doesn't strictly affect the output, but best to be safe.
-	}
-	for _, hsh := range target.Hashes {
-		h.Write([]byte(hsh))
-	}
-	for _, source := range target.AllSources() {
-		h.Write([]byte(source.String()))
-	}
-	for _, out := range target.DeclaredOutputs() {
-		h.Write([]byte(out))
-	}
+	hashString(h, target.Label.String())
+	hashStringers(h, target.DeclaredDependencies())
+	hashStringers(h, target.Visibility) // Doesn't strictly affect the output, but best to be safe.
+	hashStrings(h, target.Hashes)
+	hashStringers(h, target.AllSources())
+	hashStrings(h, target.DeclaredOutputs())
 	outs := target.DeclaredNamedOutputs()
+	hashInt(h, len(outs))
 	for _, name := range target.DeclaredOutputNames() {
-		h.Write([]byte(name))
-		for _, out := range outs[name] {
-			h.Write([]byte(out))
-		}
+		hashString(h, name)
+		hashStrings(h, outs[name])
 	}
-	for _, licence := range target.Licences {
-		h.Write([]byte(licence))
-	}
-
-	for _, output := range target.OptionalOutputs {
-		h.Write([]byte(output))
-	}
-	for _, label := range target.Labels {
-		h.Write([]byte(label))
-	}
-	for _, secret := range target.Secrets {
-		h.Write([]byte(secret))
-	}
+	hashStrings(h, target.Licences)
+	hashStrings(h, target.OptionalOutputs)
+	hashStrings(h, target.Labels)
+	hashStrings(h, target.Secrets)
 	hashBool(h, target.IsBinary)
 	hashOptionalBool(h, target.IsSubrepo)
 	hashOptionalBool(h, target.Sandbox)
 
 	// Note that we only hash the current command here; whatever's set in commands that we're not going
 	// to run is uninteresting to us.
-	h.Write([]byte(target.GetCommand(state)))
+	hashString(h, target.GetCommand(state))
 
 	hashBool(h, target.NeedsTransitiveDependencies)
 	hashBool(h, target.OutputIsComplete)
@@ -202,21 +185,17 @@ func ruleHash(state *core.BuildState, target *core.BuildTarget, runtime bool) []
 	hashBool(h, target.Local)
 	hashBool(h, target.SrcListFiles)
 	hashOptionalBool(h, target.ExitOnError)
-	for _, require := range target.Requires {
-		h.Write([]byte(require))
-	}
+	hashStrings(h, target.Requires)
 	// Indeterminate iteration order, yay...
 	provideKeys := make([]string, 0, len(target.Provides))
 	for k := range target.Provides {
 		provideKeys = append(provideKeys, k)
 	}
 	sort.Strings(provideKeys)
+	hashInt(h, len(provideKeys))
 	for _, lang := range provideKeys {
-		vs := target.Provides[lang]
-		h.Write([]byte(lang))
-		for _, l := range vs {
-			h.Write([]byte(l.String()))
-		}
+		hashString(h, lang)
+		hashStringers(h, target.Provides[lang])
 	}
 	// We don't need to hash the functions themselves because they get rerun every time -
 	// we just need to check whether one is added or removed, which is good since it's
@@ -225,38 +204,64 @@ func ruleHash(state *core.BuildState, target *core.BuildTarget, runtime bool) []
 	hashBool(h, target.PreBuildFunction != nil)
 	hashBool(h, target.PostBuildFunction != nil)
 	if target.PassEnv != nil {
+		hashInt(h, len(*target.PassEnv))
 		for _, env := range *target.PassEnv {
-			h.Write([]byte(env))
-			h.Write([]byte{'='})
-			h.Write([]byte(os.Getenv(env)))
+			hashString(h, env)
+			hashString(h, os.Getenv(env))
 		}
 	}
 
+	hashInt(h, len(target.OutputDirectories))
 	for _, o := range target.OutputDirectories {
-		h.Write([]byte(o))
+		hashString(h, string(o))
 	}
 
 	hashMap(h, target.EntryPoints)
 	hashMap(h, target.Env)
 
-	h.Write([]byte(target.FileContent))
+	hashString(h, target.FileContent)
 
 	// Hash the test and runtime fields
 	if runtime {
-		for _, datum := range target.AllData() {
-			h.Write([]byte(datum.String()))
-		}
+		hashStringers(h, target.AllData())
 		if target.IsTest() {
-			for _, output := range target.Test.Outputs {
-				h.Write([]byte(output))
-			}
+			hashStrings(h, target.Test.Outputs)
 			hashOptionalBool(h, target.Test.Sandbox)
-			h.Write([]byte(target.GetTestCommand(state)))
-			h.Write([]byte(target.Test.ArgsPlaceholder))
+			hashString(h, target.GetTestCommand(state))
+			hashString(h, target.Test.ArgsPlaceholder)
 		}
 	}
 
 	return h.Sum(nil)
+}
+
+// hashInt writes a length or a count.
+func hashInt(writer hash.Hash, n int) {
+	var b [8]byte
+	binary.LittleEndian.PutUint64(b[:], uint64(n))
+	writer.Write(b[:])
+}
+
+// hashString writes a string preceded by its length, so that it cannot run into whatever is written next.
+func hashString(writer hash.Hash, s string) {
+	hashInt(writer, len(s))
+	writer.Write([]byte(s))
+}
+
+// hashStrings writes a list of strings preceded by the number of entries.
+func hashStrings(writer hash.Hash, ss []string) {
+	hashInt(writer, len(ss))
+	for _, s := range ss {
+		hashString(writer, s)
+	}
+}
+
+// hashStringers is hashStrings for lists of things that have a string form (labels, inputs etc).
+func hashStringers[T fmt.Stringer](writer hash.Hash, items []T) {
+	hashInt(writer, len(items))
+	for _, item := range items {
+		hashString(writer, item.String())
+	}
 }
 
 func hashMap(writer hash.Hash, eps map[string]string) {
@@ -265,8 +270,10 @@ func hashMap(writer hash.Hash, eps map[string]string) {
 		keys = append(keys, ep)
 	}
 	sort.Strings(keys)
+	hashInt(writer, len(keys))
 	for _, ep := range keys {
-		writer.Write([]byte(ep + "=" + eps[ep]))
+		hashString(writer, ep)
+		hashString(writer, eps[ep])
 	}
 }
 
